@@ -76,3 +76,11 @@ Proof. vm_compute. discriminate. Qed.
 
 Example tfor_nc_is_full : run_proto vm_fuel p_tfor = run_proto_nc vm_fuel p_tfor.
 Proof. apply DiscFacts.run_proto_nc_full_lemma. exact tfor_not_cut. Qed.
+
+(* the hypotheses of wf_step_noob_disc: the popping loop obeys the discipline, and a state with no
+   resumer whose frame stack is the frame being executed *)
+Example ml_pop_disc : ml_disc ml_pop.
+Proof. intros b s Hp Hl. unfold ml_pop, vmod. split; [exact Hp|reflexivity]. Qed.
+
+Example tfor_stk : stk [cf_tfor] (with_stack (init_vstate p_tfor) [cf_tfor]).
+Proof. split; [apply DiscFacts.init_par_ok|reflexivity]. Qed.
